@@ -363,6 +363,12 @@ def mutate(rng, L, root, kind=None, manifest_names=True):
     elif kind in ('stray', 'stray_dir', 'fifo'):
         d = rng.choice(L.dirs)
         name = rng.choice(['stray', 'a b2', 'new\\file', '.stray'] + (['Manifest', 'Manifest.gz', 'Manifest.old'] if manifest_names else [])) if kind != 'stray_dir' else 'newdir'
+        if kind == 'stray' and rng.random() < 0.25:
+            # a new local file that bears the name of a DIST entry of a Manifest in its directory (a distfile
+            # and a file of the tree are different things)
+            dn = [(os.path.dirname(mp), e['path']) for mp in sorted(L.mf) for e in L.mf[mp] if e['tag'] == 'DIST']
+            if dn:
+                d, name = rng.choice(dn)
         if kind == 'fifo' and name.startswith('Manifest'):
             # a FIFO with a Manifest name makes gemato's Manifest discovery block in open() for ever
             # (observation recorded in DESIGN 19; not a case any listed property speaks about)
